@@ -481,7 +481,7 @@ func registerKeygenModels(P *Program) {
 		hi := new(big.Int).Sub(smt.Pow2Big(uint(bits)), big.NewInt(1))
 		p := ex.freshInt("safeprime", lo, hi)
 		ex.assume(smt.Eq(smt.Mod(p, smt.I64(2)), smt.I64(1)))
-		ex.assume(isPrime(p))
+		ex.assumePrime(p)
 		ex.assume(isPrime(smt.Div(p, smt.I64(2))))
 		ex.assume(smt.Eq(smt.Mod(smt.Div(p, smt.I64(2)), smt.I64(2)), smt.I64(1)))
 		return ex.newBig(BigVal{I: p})
@@ -522,7 +522,7 @@ func registerKeygenModels(P *Program) {
 		ints := &Chan{Cap: 4, Gen: func(ex *Exec) (Value, bool) {
 			p := ex.freshInt("safeprime", lo, hi)
 			ex.assume(smt.Eq(smt.Mod(p, smt.I64(2)), smt.I64(1)))
-			ex.assume(isPrime(p))
+			ex.assumePrime(p)
 			ex.assume(isPrime(smt.Div(p, smt.I64(2))))
 			// (p-1)/2 is an odd prime as well
 			ex.assume(smt.Eq(smt.Mod(smt.Div(p, smt.I64(2)), smt.I64(2)), smt.I64(1)))
@@ -552,7 +552,7 @@ func registerKeygenModels(P *Program) {
 		mk := func(n string) *smt.Term {
 			p := ex.freshInt(n, lo, hi)
 			ex.assume(smt.Eq(smt.Mod(p, smt.I64(2)), smt.I64(1)))
-			ex.assume(isPrime(p))
+			ex.assumePrime(p)
 			ex.assume(isPrime(smt.Div(p, smt.I64(2))))
 			return p
 		}
